@@ -269,7 +269,14 @@ def gen_op(rng, st):
                     'out': 'out%d' % st.outn, 'sched': rng.choice(SCHEDULES),
                     # the file handed to the writer: the reader's object, or an
                     # in-memory file derived from it (copy / identity slice)
-                    'via': rng.choice(['reader', 'reader', 'copy', 'slice', 'copy64'])})
+                    'via': rng.choice(['reader', 'reader', 'copy', 'slice', 'copy64']),
+                    # the run directory's tables are replaced (the next model run)
+                    # after the file was opened and before it is written
+                    'retable_between': rng.random() < 0.25,
+                    'scales': [rng.choice([1.0, 1e6, 1e3, 2.5]) for _ in range(8)],
+                    # unscaled re-write from an in-memory copy that documents each
+                    # tracer's table scale factor
+                    'rawvia': rng.choice(['reader', 'reader', 'copy-with-scale'])})
         if rng.random() < 0.3:
             ops.append({'op': 'collect'})
     st.queue = ops
@@ -498,6 +505,14 @@ def apply(st, op):
         st.stats['raw_roundtrips'] += 1
         try:
             g = _open(f['path'], noscale=True)
+            if op.get('rawvia') == 'copy-with-scale' and not any(
+                    'ni' in b or 'nj' in b for b in f['spec']['blocks']):
+                g = g.copy()
+                for k, e in f['exp'].items():
+                    if k in g.variables:
+                        g.variables[k].scale = e['scale']
+                w.probe('unscaled_rewrite_from_copy_documenting_scale')
+                op = dict(op, via='copy')        # tables are supplied next to the output
             d = _outdir(st, op, f)
             out = os.path.join(d, 'rt.bpch')
             h = pncgen(g, out, format='bpch', verbose=0)
@@ -551,6 +566,22 @@ def apply(st, op):
                 g = g.sliceDimensions(time=slice(None))
             before = {k: np.array(v[...]) for k, v in g.variables.items()
                       if hasattr(v, 'tracerid')} if op.get('via') in ('copy', 'slice', 'copy64') else None
+            exp_at_open = f['exp']
+            if op.get('retable_between') and op.get('via') == 'reader' and op['outdir'] == 'fresh':
+                # new tables appear under the old names (rename, as a model run would):
+                # the open reader and what it writes keep the tables it was opened with
+                import copy as _copy
+                tab = _copy.deepcopy(f['spec']['tables'])
+                for i, t in enumerate(tab['tracers']):
+                    t['scale'] = op['scales'][i % len(op['scales'])]
+                tmpd = w.path('newtables_%s' % op['out'])
+                os.makedirs(tmpd, exist_ok=True)
+                write_tables(tab, tmpd)
+                for nm in ('tracerinfo.dat', 'diaginfo.dat'):
+                    os.replace(os.path.join(tmpd, nm), os.path.join(f['dir'], nm))
+                f['spec']['tables'] = tab
+                f['exp'] = expected(f['spec'], f['doc'])
+                w.fault('sidecar_tables_replaced_while_file_open')
             d = _outdir(st, op, f)
             out = os.path.join(d, 'wr.bpch')
             h = pncgen(g, out, format='bpch', verbose=0)
@@ -583,8 +614,8 @@ def apply(st, op):
                 error=type(e).__name__, outdir=op['outdir'])
             return {}
         try:
-            _compare_scaled(st, f, got, 'write+read (output directory with %s) of a %s' % (
-                op['outdir'], desc))
+            _compare_scaled(st, dict(f, exp=exp_at_open), got,
+                            'write+read (output directory with %s) of a %s' % (op['outdir'], desc))
         except Violation as v:
             v.sig['outdir'] = op['outdir']
             kn = w.known_match(dict(v.sig, invariant=v.invariant))
